@@ -735,4 +735,155 @@ theorem readTours_ok (P : Problem) (hP : ProblemOk P) : ∀ (tours : List Tour) 
         · exact Or.inl (h4 id (Or.inr ⟨a', ha', hj', hh⟩))
         · exact Or.inr ⟨a', List.mem_flatMap.mpr ⟨t', ht', ha'⟩, hj', hh⟩
 
+theorem nodupB_sound [BEq α] [LawfulBEq α] : ∀ l : List α, nodupB l = true → l.Nodup := by
+  intro l
+  induction l with
+  | nil => intro _; exact List.nodup_nil
+  | cons a l ih =>
+    intro h
+    simp only [nodupB, Bool.and_eq_true, Bool.not_eq_true'] at h
+    refine List.nodup_cons.mpr ⟨?_, ih h.2⟩
+    intro hm
+    have : l.contains a = true := List.contains_iff_mem.mpr hm
+    rw [h.1] at this; cases this
+
+theorem find_of_mem_aux : ∀ (l : List JobDef), (l.map (·.id)).Nodup → ∀ jd ∈ l,
+    l.find? (fun j => j.id == jd.id) = some jd := by
+  intro l
+  induction l with
+  | nil => intro _ jd h; simp at h
+  | cons a l ih =>
+    intro hnd jd hm
+    simp only [List.map_cons, List.nodup_cons] at hnd
+    simp at hm
+    rcases hm with rfl | hm
+    · simp
+    · have hne : (a.id == jd.id) = false := by
+        cases h : a.id == jd.id with
+        | false => rfl
+        | true =>
+          exfalso
+          have : a.id = jd.id := by simpa using h
+          exact hnd.1 (by rw [this]; exact List.mem_map.mpr ⟨jd, hm, rfl⟩)
+      simp only [List.find?_cons, hne]
+      exact ih hnd.2 jd hm
+
+theorem find_of_mem (P : Problem) (h : idsOk P = true) (jd : JobDef) (hm : jd ∈ P.jobs) :
+    P.find jd.id = some jd :=
+  find_of_mem_aux P.jobs (nodupB_sound _ h) jd hm
+
+theorem customerIds_idem (P : Problem) (ids : List String) : customerIds P (customerIds P ids) = customerIds P ids := by
+  simp [customerIds, List.filter_filter]
+
+theorem customerIds_append (P : Problem) (a b : List String) :
+    customerIds P (a ++ b) = customerIds P a ++ customerIds P b := by
+  simp [customerIds]
+
+theorem writeUnassigned_eq (P : Problem) (U : List String) : writeUnassigned P U = customerIds P U := rfl
+
+/-- **initial-solution round trip** (partial: under the executable hypotheses `initHyp` — unique job
+    ids; the places of every customer job can be told apart by tag, location, or windows further apart
+    than the duration, multi-jobs carry at least as many distinct tags as tasks; every customer activity
+    of the solution is served at the place it names, inside one of its windows; no task is served
+    twice; every vehicle-bound activity (reload, optional break) resolves to its own marker job; the
+    unassigned list names jobs of the problem and every customer job is served or unassigned.
+    Excluded: required breaks (transit stops, S31), clustering (commute), indistinguishable places or
+    marker jobs):
+
+    writing the solution and reading it back as initial solution succeeds, gives the same customer-job
+    activities on the same vehicle shifts, in the same order, each with the same task and place index at
+    the same location, and the same set of unassigned customer jobs. -/
+theorem init_roundtrip_partial (P : Problem) (tours : List Tour) (U : List String)
+    (h : initHyp P tours U = true) :
+    ∃ r, roundTrip P tours U = .ok r ∧
+      sameCustomerActs P tours r.tours = true ∧
+      sameSet (customerIds P U) (customerIds P r.unassigned) = true := by
+  simp only [initHyp, Bool.and_eq_true] at h
+  obtain ⟨⟨⟨hids, hprob⟩, htrace⟩, hun⟩ := h
+  have hP : ProblemOk P := by
+    intro jd hm hb
+    rw [List.all_eq_true] at hprob
+    have := hprob jd (by simp [hm, hb])
+    simp only [Bool.and_eq_true] at this
+    exact this
+  simp only [traceOk, Bool.and_eq_true, List.all_eq_true] at htrace
+  obtain ⟨hnd, hok⟩ := htrace
+  have hnd' : ((([] ++ tours.flatMap (fun (t : Tour) => t.acts)).filter isJobAct).map
+      (fun (a : Act) => (a.job, a.task))).Nodup := by
+    have := nodupB_sound _ hnd
+    have e : isJobAct = fun a => isCustomerKind a.kind || isBoundKind a.kind := rfl
+    rw [e]
+    simpa [jobActs] using this
+  obtain ⟨rts, added, h1, h2, h3⟩ := readTours_ok P hP tours [] [] hok hnd' (by simp) (by simp)
+  simp only [unassignedOk, Bool.and_eq_true, List.all_eq_true] at hun
+  obtain ⟨hfound, hpart⟩ := hun
+  have hwfound : (writeUnassigned P U).all (fun id => (P.find id).isSome) = true := by
+    rw [List.all_eq_true]
+    intro id hid
+    exact hfound id (List.mem_filter.mp hid).1
+  refine ⟨{ tours := rts, unassigned := writeUnassigned P U ++
+      (P.jobs.filter (fun j => !((writeUnassigned P U).reverse ++ added).contains j.id)).map (·.id) }, ?_, h2, ?_⟩
+  · simp only [roundTrip, readInit, h1, hwfound, if_true]
+  · -- the unassigned customer set
+    simp only [customerIds_append, writeUnassigned_eq, customerIds_idem]
+    simp only [sameSet, Bool.and_eq_true, List.all_eq_true]
+    constructor
+    · intro id hid
+      simp [hid]
+    · intro id hid
+      simp only [List.mem_append] at hid
+      rcases hid with hid | hid
+      · simpa using hid
+      · -- a customer job of the problem that was not added: it is in the solver's unassigned list
+        simp only [customerIds, List.mem_filter, List.mem_map] at hid
+        obtain ⟨⟨jd, ⟨hjm, hnot⟩, rfl⟩, hcust⟩ := hid
+        have hf := find_of_mem P hids jd hjm
+        simp only [hf, Bool.not_eq_true'] at hcust
+        have := hpart jd (by simp [hjm, hcust])
+        simp only [Bool.or_eq_true, List.any_eq_true, beq_iff_eq] at this
+        rcases this with hu | ⟨a, ha, haj⟩
+        · have hu' : jd.id ∈ U := by simpa using hu
+          have : jd.id ∈ customerIds P U := by
+            simp [customerIds, hu', hf, hcust]
+          simpa using this
+        · exfalso
+          have hadded : jd.id ∈ added := by
+            apply h3
+            right
+            simp only [jobActs, List.mem_filter] at ha
+            exact ⟨a, ha.1, by simpa [isJobAct] using ha.2, haj⟩
+          simp only [Bool.not_eq_true', List.contains_eq_mem, List.mem_append, List.mem_reverse,
+            decide_eq_false_iff_not, not_or] at hnot
+          exact hnot.2 hadded
+
+/-! ### non-vacuity, and the excluded point -/
+
+namespace Demo
+def w (s e : Int) : Span := { offset := false, s := s, e := e }
+/-- the S8b witness: job A, two places at location 1 with the same window, 600 s tag `first`, 60 s tag `second` -/
+def jobA (t1 t2 : Option String) : JobDef :=
+  { id := "A", bound := false,
+    singles := [{ places := [{ loc := some 1, dur := 600, spans := [w 0 3600], tag := t1 },
+                              { loc := some 1, dur := 60, spans := [w 0 3600], tag := t2 }] }] }
+def P (t1 t2 : Option String) : Problem := { jobs := [jobA t1 t2] }
+/-- the solver's tour: departure, delivery of A at its SECOND place (arrival 10 s, 60 s service), arrival -/
+def tour : Tour := { vehicle := "v1", shift := 0, acts := [
+  { job := "", kind := "departure", task := 0, place := 0, loc := 0, arr := 0, dep := 0, tws := 0, dur := 0 },
+  { job := "A", kind := "delivery", task := 0, place := 1, loc := 1, arr := 40, dep := 280, tws := 0, dur := 240 },
+  { job := "", kind := "arrival", task := 0, place := 0, loc := 0, arr := 320, dep := 320, tws := 0, dur := 0 }] }
+
+/-- distinct tags: the hypotheses hold … -/
+example : initHyp (P (some "first") (some "second")) [tour] [] = true := by decide
+/-- … and the round trip gives place 1 back -/
+example : roundTrip (P (some "first") (some "second")) [tour] []
+    = .ok { tours := [{ vehicle := "v1", shift := 0, acts := [{ job := "A", task := 0, place := 1, loc := 1 }] }],
+            unassigned := [] } := by rfl
+/-- the excluded point — equal (or no) tags, same location, same window: the hypothesis fails and the
+    activity really comes back at the wrong place (place 0, the 600 s one) -/
+example : initHyp (P none none) [tour] [] = false := by decide
+example : roundTrip (P none none) [tour] []
+    = .ok { tours := [{ vehicle := "v1", shift := 0, acts := [{ job := "A", task := 0, place := 0, loc := 1 }] }],
+            unassigned := [] } := by rfl
+end Demo
+
 end C11.Init
